@@ -148,4 +148,242 @@ theorem importMember_asClient : ∀ (ms : List (String × DInfo F)) (k : String)
     rw [import_asClient t j, importMember_asClient rest k j]
 end
 
+/-! ## T1 / T4: rebuild through the datainfo, copy -/
+
+/-- facts about the carrier that the rebuild of `int` / `double` needs and that neither `LawfulFloatOps`
+nor `CompatLaws` provide: `±sys.float_info.max` are canonical (`x + 0.0 = x`), and `float(±UNLIMITED)`
+does not overflow (so `IntRange.__call__` accepts every integer within `±UNLIMITED`) -/
+structure ConstsOK2 (F : Type) [FloatOps F] : Prop where
+  neg_max_canon : addZero (neg (maxFinite : F)) = neg maxFinite
+  max_canon : addZero (maxFinite : F) = maxFinite
+  ofInt_limit : ∃ a b : F, ofInt (-DType.intLimit) = some a ∧ ofInt DType.intLimit = some b
+
+/-! ### lookups in the exported object -/
+
+theorem dictGet_append {α : Type} (a b : List (String × α)) (k : String) :
+    dictGet (a ++ b) k = (dictGet a k).or (dictGet b k) := by
+  induction a with
+  | nil => simp [dictGet]
+  | cons x xs ih =>
+    obtain ⟨k', v⟩ := x
+    simp only [List.cons_append, dictGet]
+    split
+    · simp
+    · exact ih
+
+theorem dictGet_optField {α : Type} (c : Bool) (k k' : String) (v : α) :
+    dictGet (optField c k v) k' = if k = k' then (if c then some v else none) else none := by
+  unfold optField
+  cases c <;> simp [dictGet]
+
+theorem dictGet_cons {α : Type} (k k' : String) (v : α) (r : List (String × α)) :
+    dictGet ((k, v) :: r) k' = if k = k' then some v else dictGet r k' := by
+  simp only [dictGet]
+
+theorem dictGet_nil {α : Type} (k' : String) : dictGet ([] : List (String × α)) k' = none := by
+  simp only [dictGet]
+
+theorem dictGet_convFields (D : Consts F) : ∀ (fields : List (String × JVal F)) (k : String),
+    dictGet (convFields D fields) k = (dictGet fields k).map (dconv D)
+  | [], k => by simp only [convFields, dictGet, Option.map_none]
+  | (k0, j) :: rest, k => by
+    simp only [convFields, dictGet]
+    split
+    · simp only [Option.map_some]
+    · exact dictGet_convFields D rest k
+
+theorem getDatatype_obj (D : Consts F) (fields : List (String × JVal F)) (base : String)
+    (h : dictGet fields "type" = some (.str base)) :
+    getDatatype D (.obj fields) = buildNode D base fields (convFields D fields) := by
+  simp only [getDatatype, dconv, h]
+
+theorem subOf_members (D : Consts F) (fields : List (String × JVal F)) (j : JVal F)
+    (h : dictGet fields "members" = some j) :
+    subOf fields (convFields D fields) "members" = some (j, dconv D j) := by
+  simp only [subOf, dictGet_convFields, h, Option.map_some]
+
+theorem ok_bind {α β : Type} (a : α) (f : α → Except Err β) : (Except.ok a >>= f) = f a := rfl
+
+/-! ### integers -/
+
+theorem ofInt_ok (hC : ConstsOK2 F) {i : Int} (h1 : -intLimit ≤ i) (h2 : i ≤ intLimit) :
+    ∃ y : F, ofInt i = some y := by
+  obtain ⟨a, b, ha, hb⟩ := hC.ofInt_limit
+  exact CompatLaws.ofInt_between _ i _ a b ha hb h1 h2
+
+theorem intValidate_self {lo hi i : Int} (h1 : lo ≤ i) (h2 : i ≤ hi) (h : ∃ y : F, ofInt i = some y) :
+    intValidate (F := F) lo hi (.int i) = .ok i := by
+  obtain ⟨y, hy⟩ := h
+  simp [intValidate, intCall, hy, h1, h2]
+
+theorem propNat_self {lo hi : Int} {n : Nat} (h1 : lo ≤ n) (h2 : (n : Int) ≤ hi)
+    (h : ∃ y : F, ofInt (n : Int) = some y) : propNat (F := F) lo hi (.int n) = .ok n := by
+  simp [propNat, intValidate_self h1 h2 h]
+
+theorem ofInt_nat_ok (hC : ConstsOK2 F) {n : Nat} (h : (n : Int) ≤ intLimit) : ∃ y : F, ofInt (n : Int) = some y :=
+  ofInt_ok hC (by unfold intLimit; omega) h
+
+/-! ### the leaves without floats -/
+
+theorem leaf_bool (D : Consts F) :
+    ∃ j, exportDatatype D (.bool : DInfo F) = .ok j ∧ getDatatype D j = .ok .bool := by
+  refine ⟨_, by rw [exportDatatype], ?_⟩
+  rw [getDatatype_obj D _ "bool" (by simp [dictGet_cons])]
+  simp [buildNode, dictGet_cons, dictGet_nil]
+
+theorem leaf_int (D : Consts F) (hC : ConstsOK2 F) {mn mx : Int} (hwf : (DInfo.int mn mx : DInfo F).WF D) :
+    ∃ j, exportDatatype D (.int mn mx : DInfo F) = .ok j ∧ getDatatype D j = .ok (.int mn mx) := by
+  simp only [DInfo.WF, DType.WF] at hwf
+  obtain ⟨h1, h2, h3⟩ := hwf
+  refine ⟨_, by rw [exportDatatype], ?_⟩
+  rw [getDatatype_obj D _ "int" (by simp [dictGet_cons])]
+  have e1 := intValidate_self (F := F) (lo := -intLimit) (hi := intLimit) (i := mn) h2 (by omega) (ofInt_ok hC h2 (by omega))
+  have e2 := intValidate_self (F := F) (lo := -intLimit) (hi := intLimit) (i := mx) (by omega) h3 (ofInt_ok hC (by omega) h3)
+  simp [buildNode, mkInt, arg, orDefault, ofJVal, dictGet_cons, dictGet_nil, e1, e2, h1, ok_bind]
+
+theorem leaf_string (D : Consts F) (hD : D.OK) (hC : ConstsOK2 F) {a b : Nat} {u : Bool}
+    (hwf : (DInfo.string a b u : DInfo F).WF D) :
+    ∃ j, exportDatatype D (.string a b u : DInfo F) = .ok j ∧ getDatatype D j = .ok (.string a b u) := by
+  simp only [DInfo.WF] at hwf
+  obtain ⟨h1, h2⟩ := hwf
+  refine ⟨_, by rw [exportDatatype], ?_⟩
+  rw [getDatatype_obj D _ "string" (by simp [dictGet_append, dictGet_optField, dictGet_cons])]
+  have ea := propNat_self (F := F) (lo := 0) (hi := intLimit) (n := a) (by omega) (by omega) (ofInt_nat_ok hC (by omega))
+  have eb := propNat_self (F := F) (lo := 0) (hi := intLimit) (n := b) (by omega) h2 (ofInt_nat_ok hC h2)
+  have e0 : propNat (F := F) 0 intLimit (.int 0) = .ok 0 :=
+    propNat_self (F := F) (lo := 0) (hi := intLimit) (n := 0) (by omega) (by unfold intLimit; omega)
+      (ofInt_nat_ok hC (by unfold intLimit; omega))
+  by_cases ha : a = 0 <;> by_cases hb : (b : Int) = intLimit <;> cases u <;>
+    simp [buildNode, mkString, arg, ofJVal, dictGet_append, dictGet_optField, dictGet_cons, dictGet_nil,
+      ea, eb, e0, ha, hb, h1, ok_bind, boolCall] <;> simp_all [ok_bind]
+
+theorem leaf_blob (D : Consts F) (hD : D.OK) (hC : ConstsOK2 F) {a b : Nat}
+    (hwf : (DInfo.blob a b : DInfo F).WF D) :
+    ∃ j, exportDatatype D (.blob a b : DInfo F) = .ok j ∧ getDatatype D j = .ok (.blob a b) := by
+  simp only [DInfo.WF] at hwf
+  obtain ⟨h1, h2⟩ := hwf
+  refine ⟨_, by rw [exportDatatype], ?_⟩
+  rw [getDatatype_obj D _ "blob" (by simp [dictGet_append, dictGet_optField, dictGet_cons])]
+  have ea := propNat_self (F := F) (lo := 0) (hi := 16777216) (n := a) (by omega) (by omega)
+    (ofInt_nat_ok hC (by unfold intLimit; omega))
+  have eb := propNat_self (F := F) (lo := 0) (hi := 16777216) (n := b) (by omega) (by omega)
+    (ofInt_nat_ok hC (by unfold intLimit; omega))
+  have e0 : propNat (F := F) 0 16777216 (.int 0) = .ok 0 :=
+    propNat_self (F := F) (lo := 0) (hi := 16777216) (n := 0) (by omega) (by omega)
+      (ofInt_nat_ok hC (by unfold intLimit; omega))
+  by_cases ha : a = 0 <;>
+    simp [buildNode, mkBlob, arg, ofJVal, dictGet_append, dictGet_optField, dictGet_cons, dictGet_nil,
+      ea, eb, e0, ha, h1, ok_bind] <;> simp_all [ok_bind]
+
+/-! ### enum -/
+
+theorem nodupB_of_nodup {α : Type} [BEq α] [LawfulBEq α] : ∀ l : List α, l.Nodup → DType.nodupB l = true
+  | [], _ => by simp only [DType.nodupB]
+  | a :: l, h => by
+    rw [List.nodup_cons] at h
+    simp only [DType.nodupB, Bool.and_eq_true, Bool.not_eq_eq_eq_not, Bool.not_true]
+    exact ⟨by simpa using h.1, nodupB_of_nodup l h.2⟩
+
+theorem enumMembers_export : ∀ ms : List (String × Int),
+    enumMembers (F := F) (ms.map (fun m => (m.1, JVal.int m.2))) = some ms
+  | [] => by simp only [List.map_nil, enumMembers]
+  | (k, v) :: rest => by
+    simp only [List.map_cons, enumMembers, enumMembers_export rest, Option.map_some]
+
+theorem sortedByValue_tail {m : String × Int} {ms : List (String × Int)} (h : sortedByValue (m :: ms)) :
+    sortedByValue ms := by
+  cases ms with
+  | nil => simp only [sortedByValue]
+  | cons x xs => exact h.2
+
+theorem sortByValue_sorted : ∀ ms : List (String × Int), sortedByValue ms → sortByValue ms = ms
+  | [], _ => by simp only [sortByValue]
+  | m :: ms, h => by
+    simp only [sortByValue]
+    rw [sortByValue_sorted ms (sortedByValue_tail h)]
+    cases ms with
+    | nil => simp only [insertByValue]
+    | cons x xs =>
+      simp only [sortedByValue] at h
+      simp only [insertByValue, h.1, if_true]
+
+theorem leaf_enum (D : Consts F) {n : String} {ms : List (String × Int)}
+    (hwf : (DInfo.enum n ms : DInfo F).WF D) :
+    ∃ j, exportDatatype D (.enum n ms : DInfo F) = .ok j ∧ getDatatype D j = .ok (.enum "" ms) := by
+  simp only [DInfo.WF, DType.WF] at hwf
+  obtain ⟨⟨h1, h2, h3⟩, h4⟩ := hwf
+  refine ⟨_, by rw [exportDatatype], ?_⟩
+  rw [getDatatype_obj D _ "enum" (by simp [dictGet_cons])]
+  have hne : ms.isEmpty = false := by
+    unfold DType.namesOK at h1
+    cases ms <;> simp_all
+  simp [buildNode, mkEnum, dictGet_cons, dictGet_nil, enumMembers_export, hne,
+    nodupB_of_nodup _ h2, nodupB_of_nodup _ h3, sortByValue_sorted ms h4]
+
+/-! ### containers: one step -/
+
+theorem array_step (D : Consts F) (hC : ConstsOK2 F) {j : JVal F} {e' : DInfo F} {a b : Nat}
+    (hj : getDatatype D j = .ok e') (h1 : a ≤ b) (h2 : b ≤ 16777216) :
+    getDatatype D (.obj [("type", .str "array"), ("minlen", .int a), ("maxlen", .int b), ("members", j)]) =
+      .ok (.array e' a b) := by
+  rw [getDatatype_obj D _ "array" (by simp [dictGet_cons])]
+  have ea := propNat_self (F := F) (lo := 0) (hi := 16777216) (n := a) (by omega) (by omega)
+    (ofInt_nat_ok hC (by unfold intLimit; omega))
+  have eb := propNat_self (F := F) (lo := 0) (hi := 16777216) (n := b) (by omega) (by omega)
+    (ofInt_nat_ok hC (by unfold intLimit; omega))
+  unfold getDatatype at hj
+  rw [buildNode, subOf_members D _ j (by simp [dictGet_cons])]
+  simp [mkArray, arg, ofJVal, dictGet_cons, dictGet_nil, ea, eb, h1, ok_bind, hj]
+
+theorem allOk_map_ok {α : Type} : ∀ l : List α, allOk (l.map Except.ok) = .ok l
+  | [] => by simp only [List.map_nil, allOk]
+  | a :: l => by simp only [List.map_cons, allOk, allOk_map_ok l]
+
+theorem allOkFields_map_ok {α : Type} : ∀ l : List (String × α),
+    allOkFields (l.map (fun kt => (kt.1, Except.ok kt.2))) = .ok l
+  | [] => by simp only [List.map_nil, allOkFields]
+  | (k, a) :: l => by simp only [List.map_cons, allOkFields, allOkFields_map_ok l]
+
+theorem strItems_map : ∀ l : List String, strItems (F := F) (l.map JVal.str) = some l
+  | [] => by simp only [List.map_nil, strItems]
+  | a :: l => by simp only [List.map_cons, strItems, strItems_map l, Option.map_some]
+
+theorem tuple_step (D : Consts F) {js : List (JVal F)} {es' : List (DInfo F)}
+    (hjs : (convList D js).map (·.self) = es'.map Except.ok) (hne : es' ≠ []) :
+    getDatatype D (.obj [("type", .str "tuple"), ("members", .arr js)]) = .ok (.tuple es') := by
+  rw [getDatatype_obj D _ "tuple" (by simp [dictGet_cons])]
+  rw [buildNode, subOf_members D _ (.arr js) (by simp [dictGet_cons])]
+  have hitems : (dconv D (.arr js)).items = es'.map Except.ok := by simp only [dconv, hjs]
+  cases es' with
+  | nil => exact absurd rfl hne
+  | cons t ts =>
+    have := allOk_map_ok (t :: ts)
+    simp [mkTuple, dictGet_cons, dictGet_nil, hitems, this]
+
+theorem struct_step (D : Consts F) {js : List (String × JVal F)} {ms' : List (String × DInfo F)}
+    {opt : List String} {differs : Bool}
+    (hjs : (convFields D js).map (fun kc => (kc.1, kc.2.self)) = ms'.map (fun kt => (kt.1, Except.ok kt.2)))
+    (hne : ms' ≠ []) (hsame : differs = false → opt = ms'.map (·.1)) (hopt : ∀ k ∈ opt, k ∈ ms'.map (·.1)) :
+    getDatatype D (.obj ([("type", .str "struct"), ("members", .obj js)] ++
+        optField differs "optional" (.arr (opt.map .str)))) = .ok (.struct ms' opt true) := by
+  rw [getDatatype_obj D _ "struct" (by simp [dictGet_cons])]
+  rw [buildNode, subOf_members D _ (.obj js) (by simp [dictGet_cons])]
+  have hfields : (dconv D (.obj js)).fields = ms'.map (fun kt => (kt.1, Except.ok kt.2)) := by
+    simp only [dconv, hjs]
+  cases ms' with
+  | nil => exact absurd rfl hne
+  | cons t ts =>
+    have := allOkFields_map_ok (t :: ts)
+    cases differs with
+    | false =>
+      have ho := hsame rfl
+      simp [mkStruct, dictGet_cons, dictGet_nil, dictGet_optField, hfields, this, ho]
+    | true =>
+      have hall : opt.all (fun k => (List.map (·.1) (t :: ts)).contains k) = true := by
+        rw [List.all_eq_true]
+        intro k hk
+        simpa using hopt k hk
+      simp [mkStruct, dictGet_cons, dictGet_nil, dictGet_optField, hfields, this, strItems_map]
+      simpa using hopt
+
 end Frappy.Lemmas.C03Datainfo
